@@ -9,3 +9,92 @@ def r15_1_units(ctx: Ctx) -> RuleResult:
     from ..dims import units_rule
 
     return units_rule(ctx, "R15.1", "C15", 100)
+
+
+from ..model import UNKNOWN, AnalysisError, mangle, unparse  # noqa: E402
+import ast  # noqa: E402
+
+
+@rule("C15")
+def r15_5_numeric_discipline(ctx: Ctx) -> RuleResult:
+    from ..numeric import check_numeric
+
+    rr = RuleResult("R15.5", "stdlib bridges use exact integer arithmetic (no float-valued library call or float division on tick/microsecond quantities)", min_instances=3)
+    check_numeric(ctx, rr, ["pyoda_time/utility/_csharp_compatibility.py", "pyoda_time/utility/_tick_arithmetic.py", "pyoda_time/_offset.py", "pyoda_time/_instant.py", "pyoda_time/_duration.py"])
+    return rr
+
+
+@rule("C15")
+def r15_3_range_guards(ctx: Ctx) -> RuleResult:
+    """The guards that protect conversions to datetime admit the whole stdlib range: the year handed to datetime.datetime has
+    lower bound exactly MINYEAR on the returning paths (a guard is present on that very quantity and rejects nothing valid);
+    Instant.to_datetime_utc rejects exactly the instants strictly before the BCL epoch (order domain, 3 orderings)."""
+    from ..absint import Iv, Obj
+    from ..oblig import interp
+    from ..order import build, run
+
+    rr = RuleResult("R15.3", "stdlib range guards reject exactly the values outside datetime's range", min_instances=4)
+    M = ctx.M
+    f = M.func("LocalDateTime.to_naive_datetime")
+    I = interp(ctx)
+    years = []
+    orig = I.call
+
+    def call(c, st, fn, depth):
+        if depth == 0 and unparse(c.func) in ("datetime.datetime", "datetime"):
+            for k in c.keywords:
+                if k.arg == "year":
+                    years.append((I.ev(k.value, st, fn, depth), unparse(k.value)))
+            if c.args:
+                years.append((I.ev(c.args[0], st, fn, depth), unparse(c.args[0])))
+        return orig(c, st, fn, depth)
+
+    I.call = call  # type: ignore[method-assign]
+    I.analyse(f)
+    rr.states += I.steps
+    rr.inst()
+    if not years:
+        rr.fail(f.qual, "construction of datetime.datetime(year=...) not found", ctx.loc(f))
+    else:
+        bad = [(v, t) for v, t in years if not (isinstance(v, Iv) and v.lo == 1)]
+        if bad:
+            v, t = bad[0]
+            rr.fail(f.qual, f"year passed to datetime (`{t}`) is constrained to {v} on the returning paths; datetime's range starts at year 1: the guard is missing on this quantity or rejects valid years", ctx.loc(f))
+        else:
+            rr.ok({"fn": f.qual, "year_passed": [repr(v) for v, _ in years]})
+    # the converted (Gregorian) value supplies every field
+    rr.inst()
+    conv = None
+    for n in ast.walk(f.node):
+        if isinstance(n, ast.Assign) and isinstance(n.value, ast.Call) and unparse(n.value.func) == "self.with_calendar" and "gregorian" in unparse(n.value).lower():
+            conv = n.targets[0].id if isinstance(n.targets[0], ast.Name) else None
+    fields = []
+    for n in ast.walk(f.node):
+        if isinstance(n, ast.Call) and unparse(n.func) in ("datetime.datetime", "datetime"):
+            fields = [unparse(k.value) for k in n.keywords] + [unparse(a) for a in n.args]
+    if conv is None:
+        rr.fail(f.qual, "value is not converted with with_calendar(CalendarSystem.gregorian) before its fields are read", ctx.loc(f))
+    elif not fields or not all(x.startswith(conv + ".") for x in fields):
+        rr.fail(f.qual, f"datetime fields {fields} are not all read from the Gregorian-converted value `{conv}`", ctx.loc(f))
+    else:
+        rr.ok({"fn": f.qual, "converted": conv, "fields": fields})
+    # Instant.to_datetime_utc: rejects exactly instants strictly before the BCL epoch
+    g = M.func("Instant.to_datetime_utc")
+    a, b = build("Instant", "a"), build("Instant", "epoch")
+    meta_prop = M.func("_PyodaConstantsMeta.BCL_EPOCH")
+    for rel, must_raise in (((-1, 0), True), ((0, -1), True), ((0, 0), False), ((0, 1), False), ((1, 0), False)):
+        rr.inst()
+        ranks = {}
+        for ka, kb, r in zip(a.keys, b.keys, rel):
+            for n_ in ka:
+                ranks[n_] = 1
+            for n_ in kb:
+                ranks[n_] = 1 - r
+        out = run(ctx, g, a.obj, {}, ranks, stubs={meta_prop.qual: lambda args, kws, recv: b.obj})
+        rr.states += 1
+        raised_all = not out.values
+        if raised_all == must_raise:
+            rr.ok({"fn": g.qual, "relation_to_BCL_epoch": rel, "raises": raised_all})
+        else:
+            rr.fail(g.qual, f"for an instant {'before' if must_raise else 'at or after'} the BCL epoch (key relation {rel}) the conversion {'returns' if must_raise else 'raises'}", ctx.loc(g))
+    return rr
